@@ -128,6 +128,28 @@ TEXT_ADD3 = {
  "C11": " Unfragment has no early return other than for fewer than two cues.",
  "C13": " Styles are swept only after marking is complete.",
 }
+TECH_ADD4 = {
+ "C01": "escapeHTML / unescapeHTML read as staged replacement programs (Replacer, chained ReplaceAll, table loops) with three ordering clauses; separator-by-position; writers store nothing into package-level memory; no result keeps the address of a field of the reader's running state",
+ "C02": "separator-by-position; writers store nothing into package-level memory; no address of running state kept by a result",
+ "C03": "separator-by-position (a <br> decided by what has been emitted so far); writers store nothing into package-level memory; no address of running state kept by a result",
+ "C04": "separator-by-position; writers store nothing into package-level memory (a shared column list mutated by one write); column list read from a package-level literal; no address of running state kept by a result",
+ "C05": "separator-by-position; writers store nothing into package-level memory; no address of running state kept by a result",
+ "C06": "no result keeps the address of a field of the decoder's running state",
+ "C07": "separator-by-position in writers and in Item.String / Line.String; no address of running state kept by a result",
+ "C08": "proof by cases over two merged operands; integer fields of rows of a local literal table; L6 loops that give up the rest (s = \"\") or cut at a guarded index; grow-by-one placeholder in register form",
+ "C11": "separator-by-position in the text identity (Item.String / Line.String)",
+ "C14": "a test of the cut index against a constant must not turn away a real index (0 included)",
+ "C15": "a write through a pointer parameter is attributed to the fields the actual designates; twin update through a helper",
+}
+TEXT_ADD4 = {
+ "C01": " Staged escaping (chained or table-driven ReplaceAll) is decided: '&' must be escaped first and restored last. A separator is never decided by what has been emitted so far when an element may contribute nothing. Writers keep no state between documents; runs never share a field of the parser's state by address.",
+ "C02": " A separator is never decided by what has been emitted so far when an element may contribute nothing; writers keep no state between documents.",
+ "C03": " A line break is placed by the line's position, not by whether anything has been emitted; writers keep no state between documents.",
+ "C04": " Writers keep no state between documents (the column list is not a shared slice one write can alter).",
+ "C05": " Writers keep no state between documents.",
+ "C11": " The identity string places its separator by position (a leading empty line is not dropped).",
+ "C14": " A guard on the cut index does not exclude index 0 (every cue starts at or after d).",
+}
 for k, v in TECH_ADD.items():
     TECH[k] += "; " + v
 for k, v in TEXT_ADD.items():
@@ -139,6 +161,10 @@ for k, v in TEXT_ADD2.items():
 for k, v in TECH_ADD3.items():
     TECH[k] += "; " + v
 for k, v in TEXT_ADD3.items():
+    TEXT[k] += v
+for k, v in TECH_ADD4.items():
+    TECH[k] += "; " + v
+for k, v in TEXT_ADD4.items():
     TEXT[k] += v
 NOTE = "Assumes P0 (non-nil receivers/arguments), P1 (non-nil model elements, map keys = IDs), library contracts in internal/chk/contracts.go, and the fidelity of go/ssa + VTA (x/tools v0.29.0). Audited residue entries in rules/residue.txt are trusted."
 props = [json.loads(l) for l in open("/verif/properties.jsonl")]
